@@ -167,6 +167,7 @@ func (p *Program) programObligations(id string) []*Obligation {
 		out = append(out, p.scanResetCoverage(decided)...)
 		out = append(out, p.scanNoGlobalWrites(decided)...)
 		out = append(out, p.scanPoolReaderReset(decided)...)
+		out = append(out, p.scanMapIteration(decided)...)
 	}
 	if id == "C06" {
 		out = append(out, p.scanAtomicGlobals(decided)...)
@@ -339,6 +340,29 @@ func (p *Program) scanPoolReaderReset(decided decidedFn) []*Obligation {
 			out = append(out, decided(name, "every Get of the pooled bufio.Reader is followed by Reset(source) in the same function", okAll, nil))
 		}
 	}
+	return out
+}
+
+// scanMapIteration: iteration over a map visits entries in an order that differs from run to run, so
+// a result computed from it is not a function of the input. No library function ranges over a map.
+func (p *Program) scanMapIteration(decided decidedFn) []*Obligation {
+	var out []*Obligation
+	bad := 0
+	for key, fn := range p.funcs {
+		for _, b := range fn.Blocks {
+			for _, ins := range b.Instrs {
+				r, ok := ins.(*ssa.Range)
+				if !ok {
+					continue
+				}
+				if _, isMap := r.X.Type().Underlying().(*types.Map); isMap {
+					bad++
+					out = append(out, decided(fmt.Sprintf("%s#C04.no_map_iteration", key), "range over a map: the iteration order is not determined by the input", false, ins))
+				}
+			}
+		}
+	}
+	out = append(out, decided("mimetype.detection#C04.no_map_iteration", "no function iterates over a map (iteration order is not a function of the input)", bad == 0, nil))
 	return out
 }
 
